@@ -114,6 +114,33 @@ class S:
         from .prove import compute_threads
         return compute_threads(self.E.an(fn))[0]
 
+    def _correlated_switches(self, fn):
+        """switches on one and the same (symbolic) value: {"switch": block -> value, "edge": arm edge node -> (value, k)}
+        for values that are switched on in more than one block (`match x` twice, a lookup on x then a dispatch on x)"""
+        an = self.E.an(fn)
+        r = getattr(an, "_corr_sw", None)
+        if r is not None:
+            return r
+        cfg = an.cfg
+        by = {}
+        for b, info in an.term.items():
+            if info["kind"] == "switch" and info["discr"][0] == "discr" and info["discr"][1][0] != "try":
+                by.setdefault(info["discr"][1], []).append(b)
+        sw, ed = {}, {}
+        for D, blocks in by.items():
+            if len(blocks) < 2:
+                continue
+            for b in blocks:
+                sw[b] = D
+                seen_vals = []
+                for e in cfg.out_edges[b]:
+                    if e.label[0] == "switch":
+                        ed[e.node] = (D, e.label[1])
+                        seen_vals.append(e.label[1])
+        r = {"switch": sw, "edge": ed}
+        an._corr_sw = r
+        return r
+
     def reach(self, fn, start_nodes, avoid=()):
         """nodes reachable from start_nodes without entering `avoid`, ignoring value-infeasible arms"""
         an = self.E.an(fn)
@@ -122,6 +149,8 @@ class S:
         avoid = set(avoid)
         seen = set()
         out = set()
+        corr = self._correlated_switches(fn)
+        back = {e.node for e in cfg.back_edges()}
         stack = [(n, frozenset()) for n in start_nodes if n not in avoid]
         while stack:
             x, pend = stack.pop()
@@ -129,13 +158,35 @@ class S:
                 continue
             seen.add((x, pend))
             out.add(x)
+            if x in back:
+                pend = frozenset(p for p in pend if not (isinstance(p[0], tuple)))     # a new iteration: forget decided values
             if x in tm:
                 news = dict((S_, k) for S_, k in pend)
                 for S_, k in tm[x]:
                     news[S_] = k
                 pend = frozenset(news.items())
+            if x in corr["edge"]:
+                # an arm of a switch on a value that is switched on again later: remember the value's variant
+                D, k = corr["edge"][x]
+                news = dict(pend)
+                news[("D", D)] = k
+                pend = frozenset(news.items())
             succs = cfg.succ[x]
             forced = [k for S_, k in pend if S_ == x]
+            if not forced and x in corr["switch"]:
+                forced = [k for S_, k in pend if S_ == ("D", corr["switch"][x])]
+                if forced:
+                    k = forced[0]
+                    allowed = []
+                    for e in cfg.out_edges[x]:
+                        if e.label[0] == "switch" and e.label[1] == k:
+                            allowed.append(e.node)
+                        elif e.label[0] == "otherwise" and k not in e.label[1]:
+                            allowed.append(e.node)
+                    for y in allowed:
+                        if y not in avoid:
+                            stack.append((y, pend))
+                    continue
             if forced:
                 # forced arm of the switch
                 k = forced[0]
